@@ -290,4 +290,6 @@ def run(chk, tier):
             chk.expect(made == [v], "token-conversion", name, v, [v], made, loc=f"{fnh['loc']['f']}:{ln}")
             n_ok += 1
         chk.expect(n_ok == 6, "token-conversion", name, "structural-variants", 6, n_ok)
+    from . import shared
+    shared.collector_preamble(chk, fx, "collector-preamble")
     chk.undecided.append("equality of the values and of the token sequence on concrete streams; collector portions split at arbitrary tags (covered structurally by the stop comparators)")
